@@ -12,3 +12,14 @@ pub open spec fn list_set_enc(l: PlutusList, dedup: bool) -> Seq<Tok> {
     if list_definite(l) { seq![Tok::Tag(258), Tok::Arr(items.len() as u64)] + flat(items) } else { seq![Tok::Tag(258), Tok::ArrIndef] + flat(items) + seq![Tok::Special(CBORSpecial::Break)] }
 }
 pub proof fn lemma_flat_refs<T: Ser>(s: Seq<T>, r: Seq<&T>, i: int) requires r == refs(s), 0 <= i < s.len() ensures *r[i] == s[i] { }
+/// Plutus constructor application, CDDL `constr<a>`: alternatives 0..6 -> tags 121..127, 7..127 -> tags 1280..1400, anything else the
+/// general form #6.102([alternative, fields])
+pub open spec fn compact_tag_of(alt: u64) -> Option<u64> {
+    if alt <= 6 { Some((121 + alt) as u64) } else if alt <= 127 { Some((1280 + (alt - 7)) as u64) } else { None }
+}
+pub open spec fn constr_enc(c: ConstrPlutusData) -> Seq<Tok> {
+    match compact_tag_of(c.alternative.0) {
+        Some(t) => seq![Tok::Tag(t)] + list_enc(c.data),
+        None => seq![Tok::Tag(102), Tok::Arr(2), Tok::UInt(c.alternative.0)] + list_enc(c.data),
+    }
+}
